@@ -32,10 +32,13 @@ def cfg_for(states, with_lost_persistent, extra=None):
         peers.append({"name": "lost.example.org", "ips": ["10.1.0.99"], "persistent": True, "reconnect_wait": 4, "always_reconnect": True})
     return {"node": {"ips": ["10.0.0.1"], "tcp_port": 3868, "cer_timeout": 600, "cea_timeout": 600, "idle_timeout": 600, "dwa_timeout": 600, "wakeup": 1},
             "peers": peers,
-            "apps": [{"id": env.APP_ACCT, "acct": True, "peers": list(range(len(states))), "kind": "threading", "max_threads": 2}]}
+            # (the schedule exploration of a reconnect due at stop() uses a plain application: worker threads that all wake up at once
+            # multiply the orders to explore without touching the dial path)
+            "apps": [dict({"id": env.APP_ACCT, "acct": True, "peers": list(range(len(states)))},
+                          **({} if extra == "due_now" else {"kind": "threading", "max_threads": 2}))]}
 
 
-def setup(sc, states, with_lost):
+def setup(sc, states, with_lost, extra=None):
     """Bring each connection into its state.  Returns {connection index: env socket index}."""
     nw = sc.nw
     idx = {}
@@ -52,8 +55,11 @@ def setup(sc, states, with_lost):
             c = len(sc.socks) - 1
             idx[i] = c
             if st != "await_cer":
-                if not sc.apply(("m", c, f"cer_p{i}")):
+                # "same_peer": every accepted connection identifies as the first configured peer (one peer, several connections)
+                if not sc.apply(("m", c, "cer_p0" if extra == "same_peer" else f"cer_p{i}")):
                     raise sk.HarnessError("set-up: CER refused")
+                if extra == "same_peer" and (sc.socks[c].fs.closed or not any(not f.h.is_request and f.h.code == 257 and f.result_code == 2001 for f in sc.socks[c].out)):
+                    return None
     if "waiting_dwa" in states:
         sc.apply(("tick", 3))
     for i, st in enumerate(states):
@@ -80,8 +86,13 @@ def run_case(case, chooser=None, window=None):
         nw = sc.start()
         if with_lost:
             nw.world.on_connect = None
-        idx = setup(sc, states, with_lost)
-        if with_lost:
+        idx = setup(sc, states, with_lost, extra)
+        if idx is None:
+            return []           # the node does not admit a second connection of a connected peer: nothing to examine
+        if with_lost and extra == "due_now":
+            sc.apply(("tick", 3))
+            nw.world.jump(1)            # the reconnect is due in the very instant stop() is called
+        elif with_lost:
             sc.apply(("tick", 2))       # lost at t=0 (refused), reconnect_wait 4: due 1-2 s into the shutdown
         ready_at_stop = [i for i, st in enumerate(states) if st in ("ready", "waiting_dwa")]
         socks_before = [s.sid for s in nw.world.socks]
@@ -131,6 +142,15 @@ def run_case(case, chooser=None, window=None):
                 got_dpr = any(f.h.is_request and f.h.code == 282 for f in s.out[n_frames[i]:])
                 if not got_dpr or i in dpa_time or s.fs.closed or s.env_closed:
                     continue
+                if extra == "flood":
+                    nw.world.low_kind = "_handle_connections"       # the I/O thread is the last to get the CPU from here on
+                if extra == "flood" and i == ready_at_stop[0] and len(ready_at_stop) > 1:
+                    # this peer sends a burst of 200 watchdog requests and then its DPA in one segment; the segment is handled
+                    # together with the next peer's DPA, so that peer's wake-up request queues up behind 200 others
+                    data = b"".join(sc.message(s, "dwr") for _ in range(200)) + sc.message(s, "dpa")
+                    nw.deliver(s.fs, data, run=False)
+                    dpa_time[i] = nw.world.now
+                    continue
                 if reaction == "dpa_now" or (reaction == "dpa_later" and sec >= 1):
                     if sc.apply(("m", idx[i], "dpa")):
                         dpa_time[i] = nw.world.now
@@ -175,7 +195,7 @@ def run_case(case, chooser=None, window=None):
                     vs.append(("shutdown:connection-not-closed-after-its-DPA", f"{desc}: connection {i}"))
                 elif closes[0][0] < dpa_time[i]:
                     vs.append(("shutdown:connection-closed-before-its-DPA-arrived", f"{desc}: connection {i} closed at {closes[0][0] - t0}, DPA at {dpa_time[i] - t0}"))
-                elif closes[0][0] > dpa_time[i] + 2 and closes[0][0] < t0 + wt:
+                elif closes[0][0] > dpa_time[i] + 2 and (closes[0][0] < t0 + wt or extra == "flood"):
                     vs.append(("shutdown:connection-not-closed-promptly-after-its-DPA", f"{desc}: connection {i} DPA at {dpa_time[i] - t0}, closed at {closes[0][0] - t0}"))
             if i in ready_at_stop and not force and reaction == "never" and closes and closes[0][0] < t0 + wt:
                 vs.append(("shutdown:connection-closed-before-DPA-or-timeout", f"{desc}: connection {i} closed at {closes[0][0] - t0}, timeout {wt}"))
@@ -253,8 +273,13 @@ def all_cases(tier):
                                 cases.append((states, reaction, force, wt, newcomer_at, with_lost))
                         if has_ready and not force and reaction in ("dpa_now", "dpa_later"):
                             cases.append((states, reaction, force, wt, None, False, "backlog"))
+                        if n >= 2 and wt == 2 and all(st in ("ready", "waiting_dwa", "disconnecting", "await_cer") for st in states) and \
+                                sum(st in ("ready", "waiting_dwa") for st in states) >= 2:
+                            cases.append((states, reaction, force, wt, None, False, "same_peer"))
                         if "await_cer" in states and wt == 5:
                             cases.append((states, reaction, force, wt, None, False, "late_cer"))
+    cases.append((("ready", "ready"), "dpa_now", False, 5, None, False, "flood"))
+    cases.append((("waiting_dwa", "ready"), "dpa_now", False, 5, None, False, "flood"))
     return cases
 
 
@@ -264,7 +289,10 @@ def sched_execute(case, prefix):
     sk.install()
     sk.set_call_points([sk.code_of(nn.Node, n) for n in ("_check_timers", "_reconnect_peers", "close_connection_socket", "remove_peer_connection",
                                                            "_add_peer_connection", "send_dpr", "receive_dpa", "send_message")])
-    sk.set_line_points({sk.code_of(nn.Node, "stop"): None})
+    lines = {sk.code_of(nn.Node, "stop"): None}
+    if len(case) > 6 and case[6] == "due_now":
+        lines.update({sk.code_of(nn.Node, "_reconnect_peers"): None, sk.code_of(nn.Node, "_connect_to_peer"): None})
+    sk.set_line_points(lines)
     ch = scheddfs.Chooser(prefix)
     vs = run_case(case, chooser=ch, window=True)
     return (tuple(sorted(set(k for k, d in vs))), tuple(vs)), ch
@@ -290,20 +318,28 @@ def run(tier):
     bound = 1
     if tier != "thorough":
         sched_cases = sched_cases[:2]
-    tasks = [(functools.partial(sched_execute, c), sched_check, bound) for c in sched_cases]
+    sched_cases.append((("ready",), "dpa_now", False, 2, None, True, "due_now"))
+    sched_cases.append(((), "never", True, 2, None, True, "due_now"))
+    # the cases whose reconnect is due at stop() get line points in the dial path; with them the free orders of the threads that
+    # stop() wakes multiply, so non-default choices at blocking points are bounded too (2) in those cases
+    bounds = [(bound, 2) if len(c) > 6 and c[6] == "due_now" and tier != "thorough" else bound for c in sched_cases]
+    tasks = [(functools.partial(sched_execute, c), sched_check, b) for c, b in zip(sched_cases, bounds)]
     sched = 0
     for c, r in zip(sched_cases, scheddfs.explore_many(tasks)):
         sched += r["executions"]
         for (key, detail), choices in r["violations"]:
             rep.add(Violation(key, f"[schedules, bound {bound}] choices {choices}: {detail}", {"case": list(map(str, c)), "choices": choices}))
-        rep.sample({"schedule_exploration": str(c), "preemption_bound": bound, "executions": r["executions"], "distinct_outcomes": len(r["outcomes"]),
+        rep.sample({"schedule_exploration": str(c), "preemption_bound": bound, "free_switch_bound": 2 if len(c) > 6 and c[6] == "due_now" and tier != "thorough" else None, "executions": r["executions"], "distinct_outcomes": len(r["outcomes"]),
                     "branching_points": r["max_points"]})
     rep.sample({"cases": total, "example_case": str(cases[len(cases) // 2])})
     rep.cov.update({"evaluations": total + sched, "distinct_nontrivial": total + sched, "schedules": sched, "exhaustive": True,
                     "rule": "product of 0..2 (quick) / 0..3 (thorough) connections each in {connecting, awaiting CER, awaiting CEA, ready, awaiting DWA, disconnecting} x peer "
                             "reaction to the DPR {DPA at once, DPA after 1 s, never, close} x force x wait timeout {2, 5} x newcomer {none, at second 0, at second 1} / a "
                             "lost persistent peer whose reconnect deadline falls into the window; every case is distinct; plus schedule exploration (bound 1, "
-                            "call granularity + every line of stop()) of stop() against the I/O thread for 2 (quick) / 4 (thorough) cases"})
+                            "call granularity + every line of stop()) of stop() against the I/O thread for 2 (quick) / 4 (thorough) cases, and for 2 cases whose "
+                            "persistent-peer reconnect is due in the instant of stop() with every line of _reconnect_peers/_connect_to_peer (quick: at most 2 "
+                            "non-default choices at blocking points); extra cases: output pending behind the DPR, CER completing inside the window, two "
+                            "ready connections of one peer"})
     return rep.finish()
 
 
